@@ -40,6 +40,7 @@ func init() {
 			ruleShutdownFlags(c, "C10.4")
 			ruleClosePathsReachCarrier(c, "C10.5")
 			ruleGracefulStopReturns(c, "C10.6")
+			ruleEmitIDs(c, "C10.7")
 		},
 		Explain: "Static necessary conditions of graceful shutdown: the table insert is gated by the shutting-down predicate whose true edge is a stream-level Unavailable; the refused id is recorded first so the refusal cannot abort the tunnel; the refusal reply is sent off the loop, once; the shutdown entry points set exactly what the predicates read; Stop's structure (state, CloseSend all, wait; Add/Done pairing); and every WaitGroup wait has a release edge — GracefulStop has none (known finding F-7).",
 		Assume: []string{"sync.WaitGroup and atomic.Bool semantics"},
@@ -55,6 +56,7 @@ func init() {
 			ruleContextChain(c, "C14.6")
 			ruleClientIDs(c, "C14.7a", "C14.7b", "C14.7")
 			ruleCloseOnce(c, "C14.8")
+			ruleCloseSafety(c, "C14.9")
 		},
 		Explain: "Static necessary conditions of 'nothing left behind': every go statement falls in a verified termination class (straight-line sender, context watcher whose context is cancelled on every finishing path, receive loop, dispatch with deferred finish); every table insert has its delete on every finishing path (both ends) and on first-send failure; stream contexts are cancelled on every finishing path; cancel empties the queue; no run-time writes to package-level state; registry add/deferred-remove pairing.",
 		Assume: []string{"handlers return when their context is cancelled and their blocking operations are released (C04.4)"},
